@@ -1,8 +1,8 @@
 use super::{Event, Id, Kind, Pubkey, Tags, Time};
 use crate::error::{Error, InnerError};
 use crate::json::json_parse::*;
-use crate::json::put;
 use crate::json::{json_escape, json_unescape};
+use crate::json::{put, to_u16, to_u32};
 use std::fmt;
 use std::ops::{Deref, DerefMut};
 
@@ -89,16 +89,16 @@ impl Filter {
         }
 
         // length
-        output[0..4].copy_from_slice((length as u32).to_ne_bytes().as_slice());
+        output[0..4].copy_from_slice(to_u32(length)?.to_ne_bytes().as_slice());
 
         // num_ids
-        output[4..6].copy_from_slice((ids.len() as u16).to_ne_bytes().as_slice());
+        output[4..6].copy_from_slice(to_u16(ids.len())?.to_ne_bytes().as_slice());
 
         // num_authors
-        output[6..8].copy_from_slice((authors.len() as u16).to_ne_bytes().as_slice());
+        output[6..8].copy_from_slice(to_u16(authors.len())?.to_ne_bytes().as_slice());
 
         // num_kinds
-        output[8..10].copy_from_slice((kinds.len() as u16).to_ne_bytes().as_slice());
+        output[8..10].copy_from_slice(to_u16(kinds.len())?.to_ne_bytes().as_slice());
 
         // zero-padding
         output[10] = 0;
@@ -864,7 +864,7 @@ fn parse_json_filter(input: &[u8], output: &mut [u8]) -> Result<(usize, usize), 
 
     // Copy ids
     if let Some(mut inpos) = start_ids {
-        let mut num_ids: u16 = 0;
+        let mut num_ids: usize = 0;
         // `inpos` is right after the open bracket of the array
         loop {
             eat_whitespace_and_commas(input, &mut inpos);
@@ -877,12 +877,12 @@ fn parse_json_filter(input: &[u8], output: &mut [u8]) -> Result<(usize, usize), 
         }
 
         // Write num_ids
-        put(output, NUM_IDS_OFFSET, num_ids.to_ne_bytes().as_slice())?;
+        put(output, NUM_IDS_OFFSET, to_u16(num_ids)?.to_ne_bytes().as_slice())?;
     }
 
     // Copy authors
     if let Some(mut inpos) = start_authors {
-        let mut num_authors: u16 = 0;
+        let mut num_authors: usize = 0;
         // `inpos` is right after the open bracket of the array
         loop {
             eat_whitespace_and_commas(input, &mut inpos);
@@ -898,13 +898,13 @@ fn parse_json_filter(input: &[u8], output: &mut [u8]) -> Result<(usize, usize), 
         put(
             output,
             NUM_AUTHORS_OFFSET,
-            num_authors.to_ne_bytes().as_slice(),
+            to_u16(num_authors)?.to_ne_bytes().as_slice(),
         )?;
     }
 
     // Copy kinds
     if let Some(mut inpos) = start_kinds {
-        let mut num_kinds: u16 = 0;
+        let mut num_kinds: usize = 0;
         // `inpos` is right after the open bracket of the array
         loop {
             eat_whitespace_and_commas(input, &mut inpos);
@@ -923,7 +923,11 @@ fn parse_json_filter(input: &[u8], output: &mut [u8]) -> Result<(usize, usize), 
         }
 
         // write num_kinds
-        put(output, NUM_KINDS_OFFSET, num_kinds.to_ne_bytes().as_slice())?;
+        put(
+            output,
+            NUM_KINDS_OFFSET,
+            to_u16(num_kinds)?.to_ne_bytes().as_slice(),
+        )?;
     }
 
     // Copy tags
@@ -933,7 +937,7 @@ fn parse_json_filter(input: &[u8], output: &mut [u8]) -> Result<(usize, usize), 
         put(
             output,
             write_tags_start + 2,
-            (num_tag_fields as u16).to_ne_bytes().as_slice(),
+            to_u16(num_tag_fields)?.to_ne_bytes().as_slice(),
         )?;
         // bump end past offset fields
         end += 4 + 2 * num_tag_fields;
@@ -944,7 +948,7 @@ fn parse_json_filter(input: &[u8], output: &mut [u8]) -> Result<(usize, usize), 
             put(
                 output,
                 write_tags_start + 4 + (2 * w),
-                ((end - write_tags_start) as u16).to_ne_bytes().as_slice(),
+                to_u16(end - write_tags_start)?.to_ne_bytes().as_slice(),
             )?;
 
             let mut inpos = start_tags[w];
@@ -968,7 +972,7 @@ fn parse_json_filter(input: &[u8], output: &mut [u8]) -> Result<(usize, usize), 
             eat_colon_with_whitespace(input, &mut inpos)?;
             verify_char(input, b'[', &mut inpos)?;
 
-            let mut count: u16 = 1; // the tag letter itself counts
+            let mut count: usize = 1; // the tag letter itself counts
             loop {
                 eat_whitespace_and_commas(input, &mut inpos);
                 if peek(input, inpos)? == b']' {
@@ -981,7 +985,7 @@ fn parse_json_filter(input: &[u8], output: &mut [u8]) -> Result<(usize, usize), 
                 }
                 let (inlen, outlen) = json_unescape(&input[inpos..], &mut output[end + 2..])?;
                 // write len
-                put(output, end, (outlen as u16).to_ne_bytes().as_slice())?;
+                put(output, end, to_u16(outlen)?.to_ne_bytes().as_slice())?;
                 end += 2 + outlen;
                 inpos += inlen;
                 verify_char(input, b'"', &mut inpos)?;
@@ -989,22 +993,18 @@ fn parse_json_filter(input: &[u8], output: &mut [u8]) -> Result<(usize, usize), 
             }
 
             // write count
-            put(output, countindex, count.to_ne_bytes().as_slice())?;
+            put(output, countindex, to_u16(count)?.to_ne_bytes().as_slice())?;
         }
         // write length of tags section
         put(
             output,
             write_tags_start,
-            ((end - write_tags_start) as u16).to_ne_bytes().as_slice(),
+            to_u16(end - write_tags_start)?.to_ne_bytes().as_slice(),
         )?;
     }
 
-    if end > u32::MAX as usize {
-        return Err(InnerError::JsonBadFilter("Filter is too long", end).into());
-    }
-
     // Write length of filter
-    put(output, 0, (end as u32).to_ne_bytes().as_slice())?;
+    put(output, 0, to_u32(end)?.to_ne_bytes().as_slice())?;
 
     Ok((inpos, end))
 }
